@@ -854,6 +854,22 @@ class Interp:
                         if sid is None:
                             continue
                         s2 = self.refine(s, cond, truth)
+                        if s2 is not None and term.get("k") in ("&&", "||") and cond.get("id") in self.ext_ids:
+                            # the operand's truth value is known on this edge: the enclosing && / || (evaluated in the
+                            # join block) reads it from the temporaries
+                            old_t = s2.tmp.get(cond["id"])
+                            oldv = old_t[0] if old_t else None
+                            newv = None
+                            if not truth:
+                                newv = av_const(0)
+                            elif oldv is None or av_truth(oldv) is None:
+                                newv = (av_refine(oldv, "!=", 0) if oldv is not None else NONZERO)
+                                if newv is BOTTOM:
+                                    newv = None
+                            if newv is not None:
+                                tmp = dict(s2.tmp)
+                                tmp[cond["id"]] = (newv, 0)
+                                s2 = s2.with_tmp(tmp)
                         if s2 is not None:
                             s2 = self.on_edge(s2, blk, cond, truth)
                         if s2 is not None:
